@@ -99,6 +99,39 @@ def boundary_vlq():
     return out
 
 
+def wide_values():
+    """magnitudes beyond 32 bits: 2^k, 2^k +- 1 for k = 31..62, and the largest int64"""
+    vs = set()
+    for k in range(31, 63):
+        vs |= {2 ** k - 1, 2 ** k, 2 ** k + 1}
+    vs.add(2 ** 63 - 1)
+    return sorted(vs)
+
+
+def validate_wide(ctx, values):
+    """the history AddMapping(V, V); AddMapping(0, 0) on the real mapper; Trace_C09W judges the
+    mappings string against the VLQ definition on binary magnitudes (no large integers in TLC)"""
+    cases = [dict(id="w%d" % v, ops=[op("map", v, v), op("map", 0, 0)]) for v in values]
+    res = ctx.run_harness("smap", cases, case_timeout_ms=4000)
+    recs, fails = [], []
+    for c, v in zip(cases, values):
+        r = res[c["id"]]
+        if "obs" not in r or r.get("panic") or r.get("hang") or r.get("crash"):
+            fails.append((v, "total", dict(hang=r.get("hang"), panic=r.get("panic"), crash=(r.get("crash") or "")[-300:])))
+            continue
+        recs.append(dict(id=c["id"], bits=[int(b) for b in reversed(bin(v)[2:])], real=r["obs"]["snaps"][-1]))
+    if recs:
+        t = ctx.tlc_trace("Trace_C09W", "Trace_C09W.cfg", recs, procs=1)
+        if t.tuples("REJECTED") or not t.ok:
+            raise vlib.Infra("Trace_C09W did not consume the trace: %s" % (t.error or t.tuples("REJECTED")))
+        byid = {r["id"]: r for r in recs}
+        for tag, tid, k, clause in [tuple(x) for x in t.tuples("FAIL")]:
+            fails.append((int(tid[1:]), clause, dict(real=byid[tid]["real"])))
+        ctx.cov["traces_validated_against_impl"] += len(recs)
+    ctx.cov["evaluations"] += len(cases)
+    return fails
+
+
 def validate(ctx, cases):
     """replay on real code, then TLC trace validation; returns list of (case, k, clause)."""
     res = ctx.run_harness("smap", [dict(id=c["id"], ops=c["ops"]) for c in cases])
@@ -159,6 +192,19 @@ def run(ctx):
             ctx.violation(case, clause, dict(real=c["snaps"][k], step=k))
         else:
             ctx.notes.append("unreproduced FAIL %s@%d %s" % (c["id"], k, clause))
+    # 64-bit values: the Go API takes ints; TLC's integers are 32-bit, so these go through Trace_C09W
+    wf = validate_wide(ctx, wide_values())
+    ctx.cov["wide_values"] = len(wide_values())
+    seenw = set()
+    for v, clause, detail in sorted(wf)[:40]:
+        if clause in seenw:
+            continue
+        again = validate_wide(ctx, [v])
+        if again and again[0][1] == clause:
+            seenw.add(clause)
+            ctx.violation(dict(input=[op("map", v, v), op("map", 0, 0)], wide=v), clause, detail)
+        else:
+            ctx.notes.append("unreproduced wide FAIL %d %s" % (v, clause))
     ctx.assumptions += ["TLA+ reference decoder (XjsSourceMap!Decode) is a faithful reading of the Source Map v3 mappings grammar",
                         "line breaks are counted per advancing call; columns count bytes (DESIGN 5 C09 reading)"]
     ctx.finish(LEVEL, "histories: all op sequences <= MaxLen over the cfg domains (exported by TLC) + seeded random "
@@ -172,7 +218,10 @@ def validate_single(ctx, ops):
 
 
 def replay(ctx, v):
-    cl = validate_single(ctx, v["case"]["input"])
+    if v["case"].get("wide") is not None:
+        cl = {c for _, c, _ in validate_wide(ctx, [v["case"]["wide"]])}
+    else:
+        cl = validate_single(ctx, v["case"]["input"])
     print("replay C09: clauses failing now:", sorted(cl))
     if cl:
         print("VIOLATION property=C09 replay=%s" % "(same input)")
